@@ -373,7 +373,7 @@ def main(tier: str) -> int:
     run.cov["translator"] = dump["_log"]
 
     # ---- table checks: Coq offender lists and the independent Python evaluation
-    coq_off, counts, err = UU.coq_table_offenders(PID)
+    coq_off, counts, err = UU.coq_table_offenders(PID, UU.C16_CHECKS)
     py_off = UU.python_table_offenders(ctx)
     if err:
         run.violation("table-checks-not-evaluable", "coqc could not evaluate the table checks over Gen_Tables.v: " + err,
